@@ -1463,6 +1463,10 @@ def trinv(T):
     """
     if not ishom(T):
         raise ValueError("expecting SE(3) matrix")
+    if T.dtype.kind in 'iub':
+        # integer element type: the inverse has elements of either sign, which
+        # an unsigned (or a narrow signed) type cannot hold
+        T = T.astype(np.float64)
     # inline this code for speed, don't use tr2rt and rt2tr
     R = T[:3, :3]
     t = T[:3, 3]
